@@ -71,6 +71,17 @@ impl Monitor for C05 {
         let mut u = std_table(rng, "u", ju, true);
         // make u differ from t: drop a column and add one of its own
         if rng.chance(1, 2) { let at = 3 + rng.below(u.schema.cols.len() - 3); u.schema.cols.remove(at); u = rebuild(&u, rng, ju); }
+        // some columns of either table declare a DEFAULT: an absent cell shows it, but the NULL-extended row of an outer join
+        // still has NULL there (the joined side contributes nothing to that row)
+        let (mut t, mut u) = (t, u);
+        for tab in [&mut t, &mut u] {
+            if rng.chance(1, 3) {
+                for c in tab.spec.cols.iter_mut() {
+                    if c.modifier != Modifier::None || !rng.chance(1, 3) { continue; }
+                    c.modifier = match c.ty { Ty::Int => Modifier::Default(E::Int(77)), Ty::Text => Modifier::Default(E::Str("dflt".into())), Ty::Real => Modifier::Default(E::Real(2.5)), Ty::Bool => Modifier::Default(E::Bool(true)), _ => Modifier::None };
+                }
+            }
+        }
         let dct = DataCfg { keys: 1 + rng.below(3), ..DataCfg::random(rng, t.schema.cols.len(), false) };
         let dcu = DataCfg { keys: 1 + rng.below(3), ..DataCfg::random(rng, u.schema.cols.len(), false) };
         let nt = rng.below(13); let nu = rng.below(13);
